@@ -143,3 +143,7 @@ def check(ctx):
     # CancelledError as AnyIO's and its uncancel count is the one the absorbing scope settles (shared with C03/R03-d)
     from .walkers import restart_walker
     restart_walker(ctx, "R04-i")
+
+    # ---- R04-j the shielded checkpoint is shielded whenever it yields (shared with C08/R08-0)
+    from .common import shielded_checkpoint_is_shielded
+    shielded_checkpoint_is_shielded(ctx, "R04-j")
